@@ -1,6 +1,6 @@
 From Coq Require Import List NArith Bool Arith.
 Import ListNotations.
-Require Import MV.Common.Interleave MV.C20.Model MV.C20.Proofs MV.C20.Proofs2 MV.C20.Exec MV.C20.ExecProofs.
+Require Import MV.Common.Interleave MV.C20.Model MV.C20.Proofs MV.C20.Proofs2 MV.C20.Exec MV.C20.ExecProofs MV.C20.ProofsWalk2.
 Open Scope N_scope.
 Require Import MV.C20.Properties.
 
@@ -36,12 +36,5 @@ Check (C20_dropped_iff_handle_dropped_when_done : forall ps c, wf ps -> reach ps
   (In PDropHandle ps -> drops (fst c) = 1 /\ rs (fst c) = Finalised) /\
   (In PRecover ps -> drops (fst c) = 0 /\ rs (fst c) = Taken)).
 Print Assumptions C20_dropped_iff_handle_dropped_when_done.
-Check (C20_spec_clauses_on_model_partial : forall c : case, wf (fst c) ->
-  let '(tr, rs0, done, dr, late) := run_case c in
-  late = false /\
-  forallb (forallb (fun x => match x with RRecovered i d => (i =? 0) && (d =? 0) | _ => true end)) rs0 = true /\
-  dr <= 1 /\
-  (has_res is_recovered rs0 = true -> dr = 0) /\
-  (has_res is_hdrop rs0 = true -> done = true -> dr = 1) /\
-  (has_res is_hdrop rs0 = false -> dr = 0)).
-Print Assumptions C20_spec_clauses_on_model_partial.
+Check (C20_spec_ok_on_model : forall c : case, wf (fst c) -> spec_ok c (run_case c) = true).
+Print Assumptions C20_spec_ok_on_model.
